@@ -40,6 +40,9 @@ class Port:
         self.last_delivery = 0   # FIFO floor (ns)
         self.rx_count = 0
         self.rx_log = []         # (t_ns, Frame) actually delivered to this port
+        self.in_delivery = False # a frame is being handled by this node right now (possibly up the call stack)
+        self.delivery_depth = 0
+        self.backlog = []        # frames that arrived while the node's receiving thread was blocked inside a handler
 
     def send(self, can_id, extended_id, data, fd_format=False):
         try:
@@ -191,10 +194,22 @@ class SimBus:
     def _deliver(self, p, fr):
         if p.name in self.silent:
             return
+        if p.in_delivery and self.sim.step_depth > p.delivery_depth:
+            # the thread that feeds frames into this node is still inside the handler of an earlier frame (blocked, e.g. waiting for a
+            # lock) and this delivery comes from events run meanwhile: one receiving thread handles frames one after the other
+            p.backlog.append(fr)
+            return
         self.deliveries += 1
         p.rx_count += 1
         p.rx_log.append((self.sim.now, fr))
         self.sim.log('rx', p.name, fr.seq)
-        p.deliver(fr)
-        for h in self.after_rx:
-            h(p, fr)
+        outer = (p.in_delivery, p.delivery_depth)
+        p.in_delivery, p.delivery_depth = True, self.sim.step_depth
+        try:
+            p.deliver(fr)
+            for h in self.after_rx:
+                h(p, fr)
+        finally:
+            p.in_delivery, p.delivery_depth = outer
+        while p.backlog and not p.in_delivery:
+            self._deliver(p, p.backlog.pop(0))
